@@ -316,6 +316,68 @@ pub fn judge_case(c: &Case07, tier: Tier, out: &mut SweepOut) -> Option<String> 
             }
         }
     }
+    // (a') history of the *process*: an encode that failed half-way (a sink that stops accepting
+    // bytes) must not change what the next encode of the same tree writes
+    let small = match c {
+        Case07::Props { n, k, .. } => *n <= 2 && *k <= 4,
+        Case07::Spell { .. } => false,
+        Case07::Desc(_) => plan.nodes.len() <= 2,
+    };
+    if small {
+        struct Limited {
+            left: usize,
+        }
+        impl std::io::Write for Limited {
+            fn write(&mut self, buf: &[u8]) -> std::io::Result<usize> {
+                if self.left == 0 {
+                    return Err(std::io::Error::new(std::io::ErrorKind::Other, "sink full"));
+                }
+                let n = buf.len().min(self.left);
+                self.left -= n;
+                Ok(n)
+            }
+            fn flush(&mut self) -> std::io::Result<()> {
+                Ok(())
+            }
+        }
+        let r = realise(&plan, &vs[0]);
+        let roots = plan.root_refs(&r);
+        for (slot, len) in [(1usize, base[1].len()), (3usize, base[3].len())] {
+            if len == 0 {
+                continue;
+            }
+            let step = len / 60 + 1;
+            let mut off = 0;
+            while off < len {
+                let res = crate::evidence::guarded(|| {
+                    let mut sink = Limited { left: off };
+                    if slot == 1 {
+                        let _ = rbx_binary::Serializer::new().compression_type(rbx_binary::CompressionType::None).serialize(&mut sink, &r.dom, &roots);
+                        let mut v = Vec::new();
+                        let _ = rbx_binary::Serializer::new().compression_type(rbx_binary::CompressionType::None).serialize(&mut v, &r.dom, &roots);
+                        v
+                    } else {
+                        let _ = rbx_xml::to_writer(&mut sink, &r.dom, &roots, xml_options(XmlMode::Unknown).0);
+                        let mut v = Vec::new();
+                        let _ = rbx_xml::to_writer(&mut v, &r.dom, &roots, xml_options(XmlMode::Unknown).0);
+                        v
+                    }
+                });
+                out.executions += 2;
+                if let Ok(again) = res {
+                    if again != base[slot] {
+                        out.violation(
+                            format!("c07|differs|{}|{}|after-failed-write", OUTPUT_NAMES[slot], class),
+                            format!("{} output of a tree changes after an earlier encode of it failed at byte {}: {}", OUTPUT_NAMES[slot], off, first_diff(&base[slot], &again)),
+                            || serde_json::to_value(Replay07 { case: c.clone(), variant: vs[0].clone(), kind: "after-failed-write".into() }).unwrap(),
+                        );
+                        break;
+                    }
+                }
+                off += step;
+            }
+        }
+    }
     // (c) fixed point after the first save
     for (i, s1) in base.iter().enumerate() {
         if s1.is_empty() {
